@@ -91,3 +91,11 @@ def repo(modname: str):
     import importlib
 
     return importlib.import_module(modname)
+
+
+def calls_of(ref: str):
+    """arguments of the calls made so far (on this path) to the stub of a contracted function --
+    lets a lemma speak about what a function passed to its callee"""
+    from . import sym
+
+    return sym.ctx().ghost.get("calls", {}).get(ref, [])
